@@ -204,7 +204,25 @@ static void creating_fault(Builder &b, Op &o, int nreq) {
 // cache/dataset flavour, so that any process-wide one-time initialisation inside the library (a lazily built
 // table, a static with a heap member) has happened before the ledger of a counted run starts. Such a block is
 // not acquired by any object and must not be reported as a leak of the run that happened to trigger it.
-ops::Plan warmup_plan(Context &gc) {
+static void warmup_env_pass(Plan &p, uint64_t seed) { // C13: every hash call of the warm-up is entered under an environment drawn from the seed
+	if (!seed) return;
+	rt::Rng r(seed);
+	for (auto &o : p.ops) if (o.kind == HASH || o.kind == FIRST || o.kind == NEXT || o.kind == LAST) {
+		uint32_t v = (uint32_t)r.below(4) << 13;
+		if (r.chance(1, 2)) v |= 0x8000;
+		if (r.chance(1, 2)) v |= 0x0040;
+#ifdef RXSIM_TSAN
+		uint32_t masks = 0x3F;
+#else
+		uint32_t masks = r.chance(1, 2) ? 0x3F : (uint32_t)r.below(64);
+#endif
+		v |= masks << 7; v |= (uint32_t)r.below(64);
+		o.env = (int64_t)v;
+	}
+}
+static ops::Plan warmup_plan_base(Context &gc);
+ops::Plan warmup_plan(Context &gc, uint64_t env_seed) { Plan p = warmup_plan_base(gc); warmup_env_pass(p, env_seed); return p; }
+static ops::Plan warmup_plan_base(Context &gc) {
 	Builder b(gc, 0x77a7, "warmup");
 	b.plan.property = "warmup";
 	b.alloc_cache(0, 0, 0); b.init_cache(0, 0);
@@ -670,6 +688,9 @@ static void gen_c08(Builder &b, bool thorough) {
 	if (second_epoch) {
 		b.phase = 2; b.task = 0;
 		int k2 = b.rnd_key(); if (k2 == b.C[0].key) k2 = (k2 + 1) % 3;
+		// keys related to the first one: a proper prefix of it, the empty key, a one-byte neighbour (whatever the re-initialisation
+		// decides from a comparison of old and new key must be decided from the whole key)
+		if (gc.small && rng.chance(1, 3)) { static const int rel[3][3] = {{4, 5, 3}, {5, 5, 0}, {7, 5, 7}}; int kk = rel[b.C[0].key % 3][rng.below(3)]; if (kk < b.nkeys && kk != b.C[0].key) k2 = kk; }
 		if (rng.chance(1, 5)) { // release + re-allocate instead of re-keying in place (same slot; the heap policy decides the addresses)
 			uint32_t f = b.C[0].flags; b.release_cache(0); b.alloc_cache(0, f, rng.chance(1, 2) ? (seam::HP_REUSE_BIG | seam::HP_REUSE_SMALL) : b.rnd_heap());
 		}
